@@ -2,6 +2,7 @@ import Capella.Lemmas.Index
 import Capella.Lemmas.IndexUnique
 import Capella.Lemmas.IndexHref
 import Capella.Lemmas.IndexApi
+import Capella.Lemmas.AccessorApi
 
 /-!
 # C03 — UUID and type lookups always agree with the actual model tree
@@ -112,6 +113,45 @@ theorem detach_without_unindex_breaks :
   revert this
   decide
 
+/-! ### the object layer: which accessor method issues which instruction (`Model/Accessor.lean`) -/
+
+section Accessor
+open Capella.Accessor Capella.AccTable
+
+/-- An index instruction that passes the accessor model's guard (`opOk`: the decidable form of the call-site
+preconditions) is well-formed for the index protocol in the state it is issued in. -/
+theorem guarded_instruction_is_wellformed (l : Loader) (op : Op) (hi : IxInv l) (h : opOk l op = true) :
+    WFOp l op ∧ WFOpU l op :=
+  opOk_sound l op hi h
+
+/-- **Every API call keeps the indexes right** — for every descriptor row of the generated table (every relation
+of every registered class), every method (create / insert / item deletion / item assignment / whole-relation
+assignment / `del` / role assignment / attribute set), every argument, every list object in hand (fresh or
+outdated), every uuid draw, and whether the call returns or raises: if before the call every fragment's id and type
+index equal the scan of its tree, ids are model-wide unique and element identities distinct, the same holds after. -/
+theorem api_call_keeps_indexes_right (t : Tables) (c : Call) (s : State) (draws : List String) (fresh : List Nat)
+    (h : IxInv s.ix) : IxInv (apiStep t c (beginCall s draws fresh)).st.ix :=
+  (pres_apiStep t c).pres _ h
+
+/-- … and so does every finite session of API calls (an exception ends a call, not the session). -/
+theorem api_session_keeps_indexes_right (t : Tables) (cs : List (Call × List String × List Nat)) (s : State)
+    (h : IxInv s.ix) : IxInv (apiRun t cs s).ix :=
+  apiRun_ixinv t cs s h
+
+/-- After any session of API calls a lookup by id returns exactly the element that carries the id in some loaded
+tree, and fails for ids no element carries (deleted, purged, replaced, never used). -/
+theorem after_any_api_session_lookup_is_exact (t : Tables) (cs : List (Call × List String × List Nat)) (s : State)
+    (h : IxInv s.ix) (k : String) :
+    (∀ n, lookup (apiRun t cs s).ix k = .ok n → ∃ f ∈ (apiRun t cs s).ix, ∃ e ∈ f.tree, e.nid = n ∧ k ∈ e.ids) ∧
+    (∀ f ∈ (apiRun t cs s).ix, ∀ e ∈ f.tree, k ∈ e.ids → lookup (apiRun t cs s).ix k = .ok e.nid) ∧
+    (k ∉ allIds (apiRun t cs s).ix → lookup (apiRun t cs s).ix k = .error .keyError) := by
+  have hi := apiRun_ixinv t cs s h
+  exact ⟨fun n hn => lookup_sound _ k n (fun f hf => (hi.inv.cons f hf).1) hn,
+         fun f hf e he hk => lookup_complete _ k (fun f hf => (hi.inv.cons f hf).1) hi.inv.ids f hf e he hk,
+         fun hk => lookup_absent _ k (fun f hf => (hi.inv.cons f hf).1) hk⟩
+
+end Accessor
+
 -- Non-vacuity: a concrete two-step history whose preconditions hold.
 def exE1 : Entry := { nid := 1, ids := ["a"], xt := some "T", href := none }
 def exE2 : Entry := { nid := 2, ids := ["b"], xt := some "U", href := none }
@@ -121,5 +161,28 @@ example :
     (run [exF0] [.attach 0 1 [exE2], .detach 0 [exE1]]).toOption.map
         (fun l => l.map (fun f => (f.tree.map (·.nid), f.idc, f.xtc)))
       = some [([2], [("b", some 2)], [("U", 2)])] := by rfl
+
+-- Non-vacuity for the accessor layer: a one-fragment model (root, one package with one member) satisfies the
+-- invariant's computable part; an attribute set through the API changes that attribute and nothing in the index; an
+-- object of another model offered to the containment list is refused with ValueError.
+section AccessorExample
+open Capella.Accessor Capella.AccTable
+
+def exRow : ARow := ⟨"C", "members", .directProxyAccessor, true, true, 0, false, ["T"], none, none, none, [], false, none, [], none, []⟩
+def exRows : List Row :=
+  [⟨1, none, "root", [("id", "r")], none⟩, ⟨2, some 1, "ownedPkg", [("id", "p")], some "P"⟩,
+   ⟨3, some 2, "ownedMember", [("id", "m")], some "T"⟩]
+def exIx : Loader :=
+  match idcacheRebuild { name := "m", semantic := true, ignDups := false, tree := exRows.map (entryOf ["id"]), idc := [], xtc := [], hrefs := [] } with
+  | .ok f => [f]
+  | .error _ => []
+def exState : State := { frags := [{ name := "m", semantic := true, idtypes := ["id"], rows := exRows }], ix := exIx }
+def exAfter : State := (apiStep ⟨[exRow], []⟩ (.podSet 3 "name" true "x") (beginCall exState [] [])).st
+
+example : (exAfter.frags.map (·.rows.map (·.attrs)), (lookup exAfter.ix "m").toOption, (lookup exAfter.ix "zz").toOption)
+    = ([[[("id", "r")], [("id", "p")], [("id", "m"), ("name", "x")]]], some 3, none) := by decide +kernel
+example : (match (apiStep ⟨[exRow], []⟩ (.insert exRow 2 (some [3]) 0 .foreign) (beginCall exState [] [])).val with
+    | .error .valueError => true | _ => false) = true := by decide +kernel
+end AccessorExample
 
 end Capella.Props.C03
